@@ -331,6 +331,12 @@ def resolve_callee(db, fi, call, lt=None):
                 if f.attr in c.methods:
                     return c.methods[f.attr]
             return ('method', f.attr)
+        # cls.method(...) inside a classmethod
+        if isinstance(f.value, ast.Name) and f.value.id == 'cls' \
+                and fn is not None and fn.cls is not None:
+            meth = db.find_method(fn.cls, f.attr)
+            if meth is not None:
+                return meth
         # module alias / class attribute chains
         t = resolve_attr_chain(db, m, f)
         if isinstance(t, (FunctionInfo, ClassInfo)):
